@@ -74,21 +74,21 @@ theorem stable_sync {j0 jo : JobObj} {sp : Sys} (ctx : PassCtx j0 sp) (hwf : WF2
     -- all recorded refs are finished and the summary is complete
     obtain ⟨hallfin, hcomplete⟩ := finished_all_refs hg hjo.template hv.noAdm hv.noKill hcomp
     -- the refreshed refs of the completion check are complete too
-    have htf := tasksForRefs_good ctx.pods jo.job.status.tasks hg.nodup
+    have htf := tasksForRefs_good (jo := jo) ctx.pods hjo.uid jo.job.status.tasks hg.nodup
     have hN0 : ∀ r ∈ jo.job.status.tasks, r.name ∈ passNames sp jo :=
       fun r hr => List.mem_append_left _ (List.mem_map_of_mem hr)
-    have hsem := tasksForRefs_refsOK ctx (passNames sp jo) jo.job.status.tasks hg.nodup hv.rs hfin hN0
+    have hsem := tasksForRefs_refsOK (jo := jo) ctx hjo.uid (passNames sp jo) jo.job.status.tasks hg.nodup hv.rs hfin hN0
     have hu := updateJobTaskRefs_g3 sp.clock jo.job hg hsem.2 htf.1 hsem.1
-    have hsame0 : SameFinished j0 sp.d jo.job (updateJobTaskRefs sp.clock jo.job (tasksForRefs sp jo.job.status.tasks)) :=
+    have hsame0 : SameFinished j0 sp.d jo.job (updateJobTaskRefs sp.clock jo.job (tasksForRefs sp jo jo.job.status.tasks)) :=
       ⟨hg, hu.good, generateTaskRefs_names sp.clock _ _ (fun t ht => (htf.1.ok t ht).1), by
         intro n hn
         rcases hu.names n hn with h | h
         · exact h
         · exact htf.2 n h, hu.froz, hallfin⟩
     have hcomplete0 : (getParallelTaskSummary sp.d jo.job (generateTaskRefs sp.clock jo.job.status.tasks
-        (tasksForRefs sp jo.job.status.tasks))).complete = true := by
+        (tasksForRefs sp jo jo.job.status.tasks))).complete = true := by
       have := getParallelTaskSummary_congr sp.d jo.job jo.job.status.tasks
-        (generateTaskRefs sp.clock jo.job.status.tasks (tasksForRefs sp jo.job.status.tasks))
+        (generateTaskRefs sp.clock jo.job.status.tasks (tasksForRefs sp jo jo.job.status.tasks))
         (hsame0.view hwf jo.job.maxAttempts).1
       rw [this]; exact hcomplete
     -- hence no name was added, and every finished ref is frozen
@@ -110,7 +110,7 @@ def StableFrom (j j' : JobObj) : Prop :=
     j.job.deletionTimestamp = none ∧
     ∀ k, finKey j.job.status.condition = some k → finKey j'.job.status.condition = some k
 
-theorem stable_moves {j0 : JobObj} {s : Sys} {a : Action} (hb : Base j0 s) (h2 : Inv2 j0 s) (h3 : Inv3G s)
+theorem stable_moves {j0 : JobObj} {s : Sys} {a : Action} (hb : Base j0 s) (h2 : Inv2 j0 s) (ho : Owned j0 s) (h3 : Inv3G s)
     (hwf : WF2 j0 s.d) (hwf3 : WF3 j0) (henv : stabEnvF s a) (j : JobObj) (hj : s.job = some j)
     {o : Option JobObj} (hm : JobMoves s a (some j) o) : ∀ y, o = some y → StableFrom j y := by
   have h3' := h3 (by rw [hj]; rfl)
@@ -147,7 +147,7 @@ theorem stable_moves {j0 : JobObj} {s : Sys} {a : Action} (hb : Base j0 s) (h2 :
       have h2sp := h2.frame hf
       have hcsp : sp.jobCache = some jo := hf.jobCache.trans hc
       have hg : Good j0 sp.d jo.job := h2sp.seen jo (mem_seenVers_cache hcsp)
-      have ctx : PassCtx j0 sp := ⟨h2sp.pods, by rw [hf.pods]; exact hb.podsNodup, by
+      have ctx : PassCtx j0 sp := ⟨h2sp.pods, ho.frame hf, by rw [hf.pods]; exact hb.podsNodup, by
         intro c hcm hfin
         rw [hf.pods]
         exact h3'.lin c (Or.inl (hf.podCache ▸ hcm)) hfin⟩
@@ -166,11 +166,12 @@ theorem stable_step {ok : Sys → Action → Prop} (hok : ∀ s a, ok s a → st
     (hr : Reach ok j0 s) (hwf : WF2 j0 s.d) (hwf3 : WF3 j0) (a : Action) (hoka : ok s a) (hal : Allowed j0 s a)
     (j j' : JobObj) (hj : s.job = some j) (hj' : (step s a).job = some j') : StableFrom j j' := by
   have hb := base_of_reach hr
-  have h2 := inv2_of_reach (fun s a h => (hok s a h).1.1) hr hwf
+  have h2 := inv2_of_reach hr hwf
+  have ho := owned_of_reach (fun s a h => (hok s a h).1.1) hr
   have h3 := inv3_of_reach (fun s a h => (hok s a h).1) hr hwf hwf3
   have hm := job_moves hb a hal
   rw [hj] at hm
-  exact stable_moves hb h2 h3 hwf hwf3 (hok s a hoka) j hj hm j' hj'
+  exact stable_moves hb h2 ho h3 hwf hwf3 (hok s a hoka) j hj hm j' hj'
 
 /-- … and along every continuation of the history inside the envelope -/
 theorem stable_steps {ok : Sys → Action → Prop} (hok : ∀ s a, ok s a → stabEnvF s a) {j0 : JobObj} {s s' : Sys}
